@@ -277,7 +277,22 @@ class Env:
 
 
 
+_uninit_cache = {}
+
+
 def has_uninit(t, limit=4000):
+    if isinstance(t, int):
+        return False
+    key = t.get_id()
+    hit = _uninit_cache.get(key)
+    if hit is not None and hit[0] is not None:
+        return hit[1]
+    r = _has_uninit(t, limit)
+    _uninit_cache[key] = (t, r)      # keep the term alive so that the id stays unique
+    return r
+
+
+def _has_uninit(t, limit):
     stack = [t]
     seen = set()
     while stack and len(seen) < limit:
@@ -374,8 +389,10 @@ class Engine:
         self.max_steps = max_steps
         self.max_paths = max_paths
         self.unwind = unwind
-        self.solver = z3.Solver()
+        self.solver = z3.SimpleSolver()
         self._pc_stack = []
+        self._model_cache = None
+        self.model_hits = 0
         self._ipdom_cache = {}
         self.auto_merge = False
         self.nqueries = 0
@@ -585,11 +602,29 @@ class Engine:
         import time
         t0 = time.time()
         s = self.solver
+        # model reuse: a model of (a prefix of) this path condition that also satisfies the rest and `extra`
+        # answers "feasible" without a solver call
+        mc = self._model_cache
+        if mc is not None:
+            mpc, mdl = mc
+            n = len(mpc)
+            if n <= len(st.pc) and all(mpc[i] is st.pc[i] for i in range(n)):
+                ok = True
+                for c in st.pc[n:]:
+                    if not z3.is_true(mdl.eval(c, model_completion=True)):
+                        ok = False
+                        break
+                if ok and (extra is None or z3.is_true(mdl.eval(extra, model_completion=True))):
+                    self.model_hits += 1
+                    self.solver_time += time.time() - t0
+                    return True
         self._sync(st.pc)
         if extra is not None:
             s.push()
             s.add(extra)
         r = s.check()
+        if r == z3.sat:
+            self._model_cache = (list(st.pc), s.model())
         if extra is not None:
             s.pop()
         self.nqueries += 1
@@ -1740,6 +1775,8 @@ class Engine:
                 self._domain(st, s, own, ow, size)
                 return s
             self.emit(st, kind, addr, size, own, None, ordering, atomic, ins, local=True)
+        elif self.log_all_atomics and atomic:
+            self.emit(st, kind, addr, size, own, None, ordering, atomic, ins, local=True)
         return own
 
     def _domain(self, st, s, own, ow, size):
@@ -1774,7 +1811,7 @@ class Engine:
                 return
         o = self._lookup(st, addr, size, 'write', ins)
         self.mem_write(st, addr, size, v, ins, o)
-        if o.kind in ('global', 'heap'):
+        if o.kind in ('global', 'heap') or (self.log_all_atomics and atomic):
             self.emit(st, kind, addr, size, None, v, ordering, atomic, ins)
 
     def do_rmw(self, st, fr, ins):
@@ -1891,6 +1928,7 @@ class Engine:
 
     max_spurious = 1
     stop_on_assert = False
+    log_all_atomics = False      # translator validation: log atomics on private (stack/TLS) objects too
     mark_hook = None
     concrete_loop_bound = 200
     # loops whose trip count is fixed by the data structure (slot scans) get their real bound; everything else
